@@ -525,7 +525,11 @@ func exec(c vh.Case, o *vh.Out) {
 			o.Kind("reload")
 			o.Emit("ok")
 		case "links":
-			o.Emit("%s", showLinks(s.n.Links()))
+			ls := s.n.Links()
+			if got, want := showLinks(ls), showShadow(sortedShadow(s.links)); got != want {
+				o.Fail("links-not-stably-sorted", "Links()=%s, want (stable sort by name of the node's links) %s", got, want)
+			}
+			o.Emit("%s", showLinks(ls))
 		case "getlink":
 			l, err := s.n.GetNodeLink(string(vh.UnHex(f[1])))
 			if err != nil {
